@@ -51,6 +51,8 @@ type c07Proto struct {
 	Sk    []string `json:"sk"`     // VerifStringConstants()[i] (encoded)
 	Pnup  []int    `json:"pnup"`   // NumUpvalues of FunctionPrototypes[i]
 	Ndbg  int      `json:"ndbgup"` // len(DbgUpvalues): only labels a wrapped NumUpvalues
+	Ls    []int    `json:"ls"`     // DbgLocals[i].StartPc
+	Le    []int    `json:"le"`     // DbgLocals[i].EndPc (first pc at which the local is out of scope)
 }
 
 type c07Src struct {
@@ -91,6 +93,12 @@ func c07Walk(sid int, path string, p *lua.FunctionProto, out *[]c07Proto) {
 		Hi: make([]int, len(p.Code)), Lo: make([]int, len(p.Code)),
 		Kt: make([]int, len(p.Constants)), Ks: make([]string, len(p.Constants)),
 		Sk: []string{}, Pnup: make([]int, len(p.FunctionPrototypes))}
+	r.Ls = make([]int, len(p.DbgLocals))
+	r.Le = make([]int, len(p.DbgLocals))
+	for i, l := range p.DbgLocals {
+		r.Ls[i] = l.StartPc
+		r.Le[i] = l.EndPc
+	}
 	for i, w := range p.Code {
 		r.Hi[i] = int(w >> 16)
 		r.Lo[i] = int(w & 0xffff)
